@@ -74,15 +74,21 @@ CHECKS["C01"] = dict(
     design_ref="5 C01")
 CHECKS["C04"] = dict(
     engine="crashstore",
-    technique="TLA+ module CrashStore.tla: operation histories (RaftLog.tla contract + hard state + membership) generated by "
-              "TLC simulation; each history runs on a real node under a journal of its file mutations (strace), the directory "
-              "image of every journal prefix is rebuilt and opened by the real start-up code, and TLC evaluates the crash "
-              "contract (Reopens, Contiguous, KeepsAcked, OnlySubmitted, MetaWritten, AppliedReproducible) on every image",
-    text="Exhaustive over crash points of each executed history (every prefix of the mutation journal), sampled over "
-         "histories; the specification supplies the histories and is the evaluator of the contract on the recovered stores.",
+    technique="TLA+ module CrashOrder.tla: one action per file mutation with the store's write-order discipline as guards, a "
+              "crash anywhere, invariant Recoverable model-checked by TLC (three Defect_* negative controls); TLA+ module "
+              "CrashStore.tla: operation histories (RaftLog.tla contract + hard state + membership) generated by TLC "
+              "simulation and the crash contract; each history runs on a real node under a journal of its file mutations "
+              "(strace): (1) the journal is validated by TLC against CrashOrder (Trace_CrashOrder.tla, catalogue records "
+              "decoded with the store's own types), (2) the directory image of EVERY journal prefix is rebuilt and opened by "
+              "the real start-up code and TLC evaluates the crash contract (Reopens, Contiguous, KeepsAcked, OnlySubmitted, "
+              "MetaWritten, AppliedReproducible) on every image",
+    text="The design leg decides for every interleaving of mutations (small id sets) that the write order keeps the store "
+         "recoverable at every crash point; the journal leg binds that order to the code; the image leg is exhaustive over "
+         "the crash points of each executed history and sampled over histories.",
     note="crash model as in the property (process death, writes atomic and in program order); journal by strace, no source "
-         "change; quick tier opens at most 90 images per history; the write-ordering design itself is not model-checked "
-         "yet (the contract is evaluated on real recoveries only); MetaWritten in the property's weak form",
+         "change; quick tier opens at most 90 images per history; a journal mutation the order model does not know is "
+         "recorded as model drift (evidence) unless a Defect_* variant explains it, which is a violation; MetaWritten in the "
+         "property's weak form",
     design_ref="5 C04")
 CHECKS["C06"] = dict(
     engine="configcluster",
